@@ -86,11 +86,11 @@ PROPS = {
     },
     "C15": {
         "harness": "c15",
-        "quick": {"workers": 8, "cases": 8000, "size": 24},
+        "quick": {"workers": 8, "cases": 4000, "size": 24},
         "thorough": {"workers": 16, "cases": 20000, "size": 36},
         "min_nontrivial_frac": 0.2,
         "rule": GEN_TA + "automata extended by chains of unary/binary rules (deep shortest trees), unproductive final states, leaf-only languages, empty languages; GetCandidateTree's result must be "
-                "language-included in the input (exact reference) and non-empty whenever the input is. Non-trivial: non-empty language and (shallowest found witness of depth >= 3 or an unproductive final state).",
+                "language-included in the input (exact reference) and non-empty whenever the input is - also along a 6-step history on one object (queries interleaved with copy-/move-assignment from another automaton and the mutators). Non-trivial: non-empty language and (shallowest found witness of depth >= 3 or an unproductive final state).",
         "assumptions": COMMON_ASSUMPTIONS,
     },
     "C09": {
@@ -103,7 +103,7 @@ PROPS = {
                 "by strategies indep/superset/ablate/split/symmiss/degenerate with chosen state numbers; the antichain, congruence-depth and congruence-breadth selections are run through the CLI protocol "
                 "(SanitizeAutsForInclusion, then CheckInclusion), the antichain selection and the default overload also on unprepared operands; every verdict is compared with an exact reference "
                 "(pair exploration (q,S) over the subset construction of B, witness word re-validated). A watchdog turns a call that does not return on these tiny inputs into a no-verdict violation (10 s + 2 x 45 s). "
-                "1/64 of the cases take two of the word automata shipped in tests/fa_timbuk_armc (files < 60 kB) instead: the three selections must agree with each other and with the reference whenever it terminates within its cap. "
+                "1/16 of the cases are LARGE: both operands get an extra non-final start state heading a chain of 10-270 states that ends in a final state (hash containers are rehashed, several start states of which only some are final), and A accepts the empty word in half of them. 1/64 of the cases take two of the word automata shipped in tests/fa_timbuk_armc (files < 60 kB) instead: the three selections must agree with each other and with the reference whenever it terminates within its cap. "
                 "Non-trivial: both languages contain a word of length >= 2 and some reached macro-state of B has >= 2 states. Distinct: hash of the case text.",
         "assumptions": COMMON_ASSUMPTIONS + ["congruence selections are only called on operands prepared by SanitizeAutsForInclusion (the dispatcher forms a disjoint union of its operands)",
                                               "SIM / EQUIV selections are not claimed by the property (FA ComputeSimulation is unusable) and are not exercised"],
@@ -123,7 +123,7 @@ PROPS = {
     },
     "C07": {
         "harness": "c07",
-        "quick": {"workers": 8, "cases": 700, "size": 22},
+        "quick": {"workers": 8, "cases": 1000, "size": 22},
         "thorough": {"workers": 16, "cases": 8000, "size": 30},
         "min_nontrivial_frac": 0.25,
         "min_tag_frac": {"verdict:included": 0.15, "verdict:not-included": 0.15, "two-children-with-several-macrostates": 0.03},
@@ -202,7 +202,7 @@ PROPS = {
                 "Apply1/2/3 and Project through functor OBJECTS that are re-used across calls (as library code does), destruction in generated order (also implicit destruction by overwriting a pool slot), read-only visitors; after every step all live handles must still equal their truth tables (ASan: no "
                 "use-after-free / double free); at the end every handle is destroyed and the sizes of the leaf and internal unique tables (hook LIBVATA_VERIF) must equal their values before the history. "
                 "Non-trivial: a handle sharing nodes with a live one is destroyed and the survivor is read afterwards. Distinct: hash of the history.",
-        "assumptions": COMMON_ASSUMPTIONS + ["the size law is asserted for histories without Project (Project may leave unreferenced nodes by design; such histories are checked for values and ASan only)"],
+        "assumptions": COMMON_ASSUMPTIONS + ["the size law is asserted for the two thirds of the histories that use only construction, copy, assignment, apply and destruction; the others also use Project / Rename / ExtendWith / GetMtbddForPrefix (which may leave unreferenced nodes by design) and are checked for values and by ASan only"],
     },
     "C13": {
         "harness": "c13",
